@@ -22,7 +22,8 @@ RULE = (
     '), so per-feature counts are equal by construction; the model is built to contain an eligible element. Injected: '
     'mjcf.loads + jax.eval_shape(P.init) must raise for each P (eager P.init as well on a subsample). Clean: no exception and '
     'sizes, link types, parents-before-children, names, actuator indices, dof maps, init_q and the forward kinematics of init_q '
-    'agree with the spec / MuJoCo at qpos0. Non-trivial: injected element is not the first eligible one, or (clean) >= 2 links. '
+    'agree with the spec / MuJoCo at qpos0. history: a clean model is accepted, then the same document with a feature injected and the '
+    'first MjModel switched to an unsupported option in place must both be rejected (acceptance must not be remembered). Non-trivial: injected element is not the first eligible one, or (clean) >= 2 links. '
     'Distinct: hash of (feature, element index, spec).')
 ASSUMPTIONS = [
     'every injected document is compiled by MuJoCo itself first (a document MuJoCo refuses is a generator reject, not a pass)',
@@ -288,6 +289,67 @@ def check(case, ctx=None):
               sample={'feature': 'clean', 'model': phys.model_summary(spec), 'init_pose_residual': float(max(ep, er))})
 
 
+INPLACE = ['integrator', 'cone', 'impratio', 'wind']
+
+
+def check_history(case, ctx=None):
+  """Two-step histories: a clean model is accepted by every pipeline, then (a) the same document with a feature injected
+  (a new MjModel), then (b) the first MjModel mutated in place, must be rejected - acceptance must not be remembered."""
+  m = phys.mods()
+  spec = case['spec']
+  xml = modelgen.to_xml(spec)
+  phys.load_mj(xml)
+  sys = phys.load_brax(xml)
+  for p_ in phys.PIPELINES:
+    if init_raises(sys, p_, False)['traced'] is not None:
+      raise Violation('rejected_clean', f'{p_}.init raised on a supported model', labels={'check': 'rejected_clean', 'pipeline': p_})
+  feature = case['feature']
+  inj = inject(xml, feature, case['pick'])
+  if inj is not None:
+    xml2 = inj[0]
+    phys.load_mj(xml2)
+    del sys
+    try:
+      sys2 = phys.load_brax(xml2)
+    except Exception:  # pylint: disable=broad-except
+      sys2 = None
+    if sys2 is not None:
+      for p_ in phys.PIPELINES:
+        if init_raises(sys2, p_, False)['traced'] is None:
+          raise Violation('accepted', f'{p_}.init accepted a model with unsupported feature {feature} after having accepted the clean '
+                          'version of the same document', labels={'check': 'accepted', 'feature': feature, 'pipeline': p_, 'how': 'after_clean'})
+  # in-place mutation of the MjModel the system was built from
+  sys = phys.load_brax(xml)
+  for p_ in phys.PIPELINES:
+    init_raises(sys, p_, False)
+  mj = sys.mj_model
+  what = case['inplace']
+  if what == 'integrator':
+    mj.opt.integrator = 1
+  elif what == 'cone':
+    mj.opt.cone = 1
+  elif what == 'impratio':
+    mj.opt.impratio = 2.0
+  else:
+    mj.opt.wind[:] = [1.0, 0.0, 0.0]
+  for p_ in phys.PIPELINES:
+    if init_raises(sys, p_, False)['traced'] is None:
+      raise Violation('accepted', f'{p_}.init accepted a model whose MjModel was switched to an unsupported {what} in place after a first, '
+                      'accepted init', labels={'check': 'accepted', 'feature': 'inplace_' + what, 'pipeline': p_, 'how': 'inplace'})
+  return dict(fp=fingerprint(['history', feature, what, spec]), nontrivial=True, labels=['history', f'feature:{feature}', f'inplace:{what}'],
+              sample={'history': ['clean accepted', f'{feature} injected -> rejected', f'{what} switched in place -> rejected'],
+                      'model': phys.model_summary(spec)})
+
+
+@st.composite
+def history_cases(draw):
+  feature = draw(st.sampled_from([f for f in FEATURES if needs(f)['cls'] is None]))
+  c = draw(cases(feature))
+  c['inplace'] = draw(st.sampled_from(INPLACE))
+  c['kind'] = 'history'
+  return c
+
+
 def tasks(tier, seed):
   q = tier == 'quick'
   out = []
@@ -296,10 +358,21 @@ def tasks(tier, seed):
     out.append({'kind': 'inject', 'feature': f, 'n': 5 if q else 80})
   for _ in range(8):
     out.append({'kind': 'clean', 'n': 5 if q else 80})
+  for _ in range(4):
+    out.append({'kind': 'history', 'n': 4 if q else 60})
   return out
 
 
 def run_task(task, ctx):
+  if task['kind'] == 'history':
+    def hbody(c):
+      try:
+        return check_history(c, ctx)
+      except phys.GeneratorReject:
+        ctx.count('generator_rejects')
+        return None
+    ctx.run_given(history_cases(), hbody, task['n'], task['seed'], check='history', skip_simplest=True)
+    return
   feature = task.get('feature', 'clean')
   def body(c):
     try:
@@ -314,4 +387,7 @@ def run_task(task, ctx):
 
 
 def replay(case, check_name=None):
-  check(case)
+  if case.get('kind') == 'history' or check_name == 'history':
+    check_history(case)
+  else:
+    check(case)
